@@ -265,7 +265,8 @@ func extractCFilters(l *leanFile, f *ast.File, shape map[string]any) {
 			}
 		case *ast.IfStmt:
 			c := src(v.Cond)
-			if strings.Contains(c, "startHeight") || strings.Contains(c, "stopHeight") || strings.Contains(c, "maxBatchSize") {
+			if strings.Contains(c, "startHeight") || strings.Contains(c, "stopHeight") || strings.Contains(c, "maxBatchSize") ||
+				strings.Contains(c, "bestHeight") {
 				arith = append(arith, "if "+c)
 			}
 		case *ast.ForStmt:
@@ -331,4 +332,6 @@ func fmtInt(n int) string {
 	return s
 }
 
-func quote(s string) string { return "\"" + strings.ReplaceAll(strings.ReplaceAll(s, "\\", "\\\\"), "\"", "\\\"") + "\"" }
+func quote(s string) string {
+	return "\"" + strings.ReplaceAll(strings.ReplaceAll(s, "\\", "\\\\"), "\"", "\\\"") + "\""
+}
